@@ -602,8 +602,9 @@ class Grow:
         if not grown:
             raise Unanalysable("no path grows the tape")
         for s in grown:
-            if "size" not in s.fields or "offset" not in s.fields:
-                raise Unanalysable("a path through make_accessible does not assign self.size and self.offset")
+            # a field that is not assigned keeps its value
+            s.fields.setdefault("size", S)
+            s.fields.setdefault("offset", O)
         self.require("RANGE", "range|start", node, [(s, s.fields["offset"] + start) for s in grown],
                      "after growing, offset' + start must be >= 0 (the first requested cell is inside the new block)")
         self.require("RANGE", "range|end", node, [(s, s.fields["size"] - s.fields["offset"] - end) for s in grown],
